@@ -9,7 +9,10 @@ for sd in sorted(os.listdir(V + "/seeded")):
     m = json.load(open(mp))
     summ = (m.get("summary") or "").replace("|", "/").replace("\n", " ")
     if len(summ) > 150: summ = summ[:147] + "..."
-    rows.append("| %s | %s | %s | %s | %s |" % (sd, m["property"], summ, ", ".join(m.get("caught_by", [])) or "-", ", ".join(m.get("missed_by", [])) or "-"))
+    caught = ", ".join(m.get("caught_by", [])) or "-"
+    if m.get("status"):
+        caught = "(%s)" % m["status"].split(":")[0]
+    rows.append("| %s | %s | %s | %s | %s |" % (sd, m["property"], summ, caught, ", ".join(m.get("missed_by", [])) or "-"))
 table = "| Seed | Property | Change | Caught by (quick tier) | Run but silent |\n|---|---|---|---|---|\n" + "\n".join(rows) + "\n"
 p = V + "/DESIGN.md"
 s = open(p).read()
